@@ -139,7 +139,7 @@ def run(facts, rep, tier):
         for i, n in enumerate(lens):
             ok = n["name"] == "count" and n["recv"].get("k") == "mcall" and n["recv"]["name"] == "chars"
             rep.ob("C05.T4", "length-in-chars:generator#%d" % i, ok, "`%s`" % src(n) if ok else "the generator's filter measures `%s` (bytes) while the generated code counts chars: valid enum values with non-ASCII text are dropped" % src(n), n.get("sp"))
-        rep.floor("C05.T4", "length measurements in the filter", len(lens), 2)
+        rep.floor("C05.T4", "length measurements in the filter", len(lens), 1)
 
     # D1
     nots = em.let_of("not")
